@@ -16,6 +16,11 @@ func init() {
 		Run:   runC18,
 		Trusted: []string{"net/http.Server.Shutdown honours its context", "context.WithTimeout cancels after the timeout", "grpc.Server.Stop forcibly closes open streams"},
 		Mutants: []mutant{
+			{Name: "draining servers stay registered", File: "proxy/serve.go", Old: "\t\tsrvs[k] = v\n\t}\n\tservers = make(map[string]Server)\n\tmu.Unlock()\n", New: "\t\tsrvs[k] = v\n\t}\n\tmu.Unlock()\n", Expect: "C18.R3"},
+			{Name: "benign: registry emptied by delete in the snapshot loop", File: "proxy/serve.go", Old: "\t\tsrvs[k] = v\n\t}\n\tservers = make(map[string]Server)\n\tmu.Unlock()\n", New: "\t\tsrvs[k] = v\n\t\tdelete(servers, k)\n\t}\n\tmu.Unlock()\n", Expect: ""},
+			{Name: "signal registration released before the exit handler", File: "exit/listen.go", Old: "\t\t\tif fn != nil {\n\t\t\t\tfn(sig)\n\t\t\t}\n", New: "\t\t\tsignal.Stop(sigchan)\n\t\t\tif fn != nil {\n\t\t\t\tfn(sig)\n\t\t\t}\n", Expect: "C18.X1"},
+			{Name: "benign: signal registration released after the exit handler", File: "exit/listen.go", Old: "\t\t\tif fn != nil {\n\t\t\t\tfn(sig)\n\t\t\t}\n", New: "\t\t\tif fn != nil {\n\t\t\t\tfn(sig)\n\t\t\t}\n\t\t\tsignal.Stop(sigchan)\n", Expect: ""},
+
 			{Name: "gRPC shutdown ignores ctx again", File: "proxy/grpc_handler.go", Old: "\tdone := make(chan struct{})\n\tgo func() {\n\t\ts.server.GracefulStop()\n\t\tclose(done)\n\t}()\n\tselect {\n\tcase <-done:\n\tcase <-ctx.Done():\n\t\ts.server.Stop()\n\t}\n\treturn nil", New: "\ts.server.GracefulStop()\n\treturn nil", Expect: "C18.D1"},
 			{Name: "GracefulStop synchronously, ctx only looked at afterwards", File: "proxy/grpc_handler.go", Old: "\tdone := make(chan struct{})\n\tgo func() {\n\t\ts.server.GracefulStop()\n\t\tclose(done)\n\t}()\n\tselect {", New: "\tdone := make(chan struct{})\n\ts.server.GracefulStop()\n\tclose(done)\n\tselect {", Expect: "C18.D1"},
 			{Name: "return before Unlock in CloseProxy", File: "proxy/serve.go", Old: "\tmu.Lock()\n\tdefer mu.Unlock()\n\tif srv, ok := servers[address]; ok {", New: "\tmu.Lock()\n\tif srv, ok := servers[address]; ok {", Expect: "C18.L1"},
@@ -46,6 +51,8 @@ func runC18(c *Ctx) {
 	runC18O1(c)
 	runC18R1(c)
 	runC18E1(c)
+	runC18R3(c)
+	runC18X1(c)
 }
 
 // shutdownImpls: repo methods named Shutdown with a single context.Context parameter on types implementing proxy.Server.
